@@ -124,18 +124,26 @@ for pid in sorted(props):
                                          str(m.get("trigger", "")).replace("|", "/")[:300],
                                          sr.get("result", "not yet run").replace("|", "/")))
 out.append("")
-p2 = os.path.join(V, "seeded2", "results.json")
-if os.path.exists(p2):
+ROUNDS = [("seeded2", "6.3 Second round of seeded changes",
+           "A second set of fresh sub-agents got the same brief plus the one-sentence summary of the first round's "
+           "change for their property, and had to choose a different mechanism, function and kind of trigger, "
+           "preferring rarely exercised paths."),
+          ("seeded3", "6.4 Third round of seeded changes",
+           "A third set of fresh sub-agents, told the summaries of both earlier changes for their property, again had "
+           "to choose a different mechanism, function and kind of trigger (error paths, later sessions, interactions "
+           "between two interfaces were suggested).")]
+for rdir, title, intro in ROUNDS:
+    p2 = os.path.join(V, rdir, "results.json")
+    if not os.path.exists(p2):
+        continue
     r2 = json.load(open(p2))
-    out.append("### 6.3 Second round of seeded changes\n")
-    out.append("A second set of fresh sub-agents got the same brief plus the one-sentence summary of the first round's "
-               "change for their property, and had to choose a different mechanism, function and kind of trigger, "
-               "preferring rarely exercised paths. Kept in `seeded2/<id>/`. These were run **out of tree** with "
-               "`tools/seedtest2.sh` (the machinery is built from the patched scratch worktree via `H4_SRC`, into a "
-               "private build directory; `/repo` is not touched).\n")
+    out.append("### %s\n" % title)
+    out.append(intro + " Kept in `%s/<id>/`. These were run **out of tree** with `tools/seedtest2.sh` (the machinery is "
+               "built from the patched scratch worktree via `H4_SRC`, into a private build directory; `/repo` is not "
+               "touched).\n" % rdir)
     out.append("| property | seeded change | trigger | result |\n|---|---|---|---|")
     for pid in sorted(props):
-        mp = os.path.join(V, "seeded2", pid, "meta.json")
+        mp = os.path.join(V, rdir, pid, "meta.json")
         if not os.path.exists(mp):
             continue
         try:
@@ -151,8 +159,8 @@ p3 = os.path.join(V, "seeded2", "seedall_last_run.txt")
 if os.path.exists(p3):
     lines = [l for l in open(p3).read().split("\n") if l.strip()]
     caught = sum(1 for l in lines if " rc=1 " in l)
-    out.append("### 6.4 All kept seeds against the final checks\n")
-    out.append("`tools/seedall.sh` re-applies every kept patch of both rounds to a scratch worktree of the current "
+    out.append("### 6.5 All kept seeds against the final checks\n")
+    out.append("`tools/seedall.sh` re-applies every kept patch of all rounds to a scratch worktree of the current "
                "`/repo` HEAD (i.e. on top of all `fix:` commits), builds the machinery from it and runs the property's "
                "quick tier: **%d of %d seeded changes are reported** (exit 1 with VIOLATION lines) by the checks as "
                "committed; the log of that run is `seeded2/seedall_last_run.txt`.\n" % (caught, len(lines)))
